@@ -1139,10 +1139,84 @@ func allPermutations(xs []string) [][]string {
 	return out
 }
 
+// c07WideParts: ONE alternative with many required terms (word-size boundaries 63..66, 127..130) against lists that lack one
+// of them, with entries repeated two to four times and with two entries that cover the same term: per-term bookkeeping in a
+// fixed-width set, or counting matches instead of covered terms, goes wrong only there
+func c07WideParts() {
+	for _, n := range []int{31, 32, 33, 63, 64, 65, 66, 70, 127, 128, 129, 130} {
+		for variant := 0; variant < 3; variant++ {
+			ids := make([]string, n)
+			for i := range ids {
+				switch variant {
+				case 0:
+					ids[i] = "LicenseRef-w" + itoa(i)
+				case 1:
+					ids[i] = tblActive[(i*7+int(seed))%len(tblActive)]
+				default:
+					ids[i] = tblActive[len(tblActive)-1-i]
+				}
+			}
+			if variant > 0 && n != 65 && n != 70 {
+				continue // listed ids: every comparison of two licence ids consults the range table — two sizes are enough
+			}
+			expr := strings.Join(ids, " AND ")
+			if !implValid(expr) {
+				continue
+			}
+			ext := implExt(expr)
+			if ext.err != nil || len(ext.list) != n {
+				continue // repeated terms after normalisation
+			}
+			sorted := append([]string{}, ext.list...)
+			sort.Strings(sorted)
+			for _, missing := range []int{0, 1, n / 2, n - 2, n - 1} {
+				var l []string
+				for i, t := range sorted {
+					if i != missing {
+						l = append(l, t)
+					}
+				}
+				if variant > 0 && missing != 0 && missing != n-1 {
+					continue
+				}
+				for _, dupAt := range []int{0, len(l) / 2, len(l) - 2, len(l) - 1} {
+					if variant > 0 && dupAt != len(l)-1 {
+						continue
+					}
+					for reps := 1; reps <= 3; reps++ {
+						d := append([]string{}, l...)
+						for r := 0; r < reps; r++ {
+							d = append(d, l[dupAt])
+						}
+						k := &kase{Expr: expr, ExprHex: hx(expr), Allowed: d}
+						res.Evaluations++
+						count("wide_parts")
+						r := implSat(expr, d)
+						if r.err != nil || r.panicv != nil || r.ok {
+							fail(failure{Stream: "oracle", What: "a required term is covered by no entry, yet repeating other entries changed the verdict", Case: k, Impl: r.String(), Expected: "false"})
+						}
+						full := append(append([]string{}, d...), sorted[missing])
+						r = implSat(expr, full)
+						if r.err != nil || r.panicv != nil || !r.ok {
+							fail(failure{Stream: "oracle", What: "every required term is covered (some entries repeated), yet the verdict is not 'satisfied'", Case: &kase{Expr: expr, ExprHex: hx(expr), Allowed: full}, Impl: r.String(), Expected: "true"})
+						}
+						if variant == 0 && reps == 1 && dupAt == len(l)-1 {
+							if f := c07Check(k, false); f != nil {
+								fail(*f)
+							}
+						}
+					}
+				}
+			}
+		}
+	}
+}
+
 func init() {
 	props["C07"] = func() {
 		res.Rule = "random (expression, allowed list) pairs from the C01 generator; for each: a random permutation, the reversal, a duplication, a full duplication, a re-spelling (case of listed ids, surrounding spaces/parentheses) and a random valid extension; thorough adds every permutation of lists up to 5 entries. Non-trivial & distinct = (expression, allowed set) with >= 2 entries or a non-leaf expression"
 		c07Lattice()
+		c07WideParts()
 		n := scale(5000, 60000)
 		for i := 0; i < n && !timeUp("props_tree.go:542"); i++ {
 			c := genTreeCase(scale(4, 6), 5)
